@@ -7,6 +7,7 @@ import (
 	"os"
 	"runtime"
 	"sort"
+	"strconv"
 	"strings"
 	"time"
 
@@ -146,6 +147,8 @@ func RunCase(t *rapid.T, pd *PropDef, st *RunStats, known map[string]bool) {
 				t.Fatalf("VIOLATION-CASE property=%s sig=%s\n%s\nops=%d", pd.ID, v.Sig, v.Msg, len(ops))
 			}
 		}()
+		stop := watchdog(pd.ID, func() *Case { cs.Ops = ops; return cs }, it, st)
+		defer stop()
 		for i := 0; i < n; i++ {
 			op := g.Next(t)
 			if op == nil {
@@ -209,6 +212,8 @@ func Replay(pd *PropDef, cs *Case) (v *Violation) {
 		opt.DeepEvery = 1 // replays always run the deep comparison, so a defect shows at the step that causes it
 	}
 	it := NewInterp(cs.Cfg, pd.Policies, opt)
+	stop := watchdog(pd.ID, nil, it, nil)
+	defer stop()
 	for i := range cs.Ops {
 		it.Apply(&cs.Ops[i])
 	}
@@ -295,4 +300,54 @@ func libraryPanic(r any, it *Interp) *Violation {
 			return nil
 		}
 	}
+}
+
+// HangLimit is how long one case may take before it counts as hung. A case normally takes milliseconds; the limit is far
+// beyond any scheduling delay of a busy machine, so reaching it means that a call never returns (a lock that is never
+// released, an endless loop). The harness owns this clock: it is not a time budget of the search.
+var HangLimit = hangLimit()
+
+func hangLimit() time.Duration {
+	if v, err := strconv.Atoi(os.Getenv("VERIF_HANG_S")); err == nil && v > 0 {
+		return time.Duration(v) * time.Second
+	}
+	return 180 * time.Second
+}
+
+// watchdog reports a case that does not finish: it writes the case (if get is given) with the signature
+// hang|<op kind> of the operation that was running, prints the VIOLATION-CASE line and ends the process with status 1
+// (a goroutine blocked inside the library cannot be unwound).
+func watchdog(prop string, get func() *Case, it *Interp, st *RunStats) (stop func()) {
+	done := make(chan struct{})
+	go func() {
+		select {
+		case <-done:
+		case <-time.After(HangLimit):
+			kind, step := "?", it.Step
+			if it.cur != nil {
+				kind = it.cur.K
+			}
+			sig := "hang|" + kind
+			msg := fmt.Sprintf("step %d: operation %v did not return within %v (a call blocks forever)", step, it.cur, HangLimit)
+			if get != nil {
+				cs := get()
+				cs.Failure, cs.Sig = msg, sig
+				if ff := os.Getenv("VERIF_FAILFILE"); ff != "" {
+					_ = WriteCase(ff, cs)
+					if st != nil {
+						st.FailFile = ff
+					}
+				}
+				if st != nil {
+					st.Failed, st.FailSig, st.FailMsg = true, sig, msg
+					st.Write()
+				}
+				fmt.Printf("VIOLATION-CASE property=%s sig=%s\n%s\nops=%d\n", prop, sig, msg, len(cs.Ops))
+			} else {
+				fmt.Printf("REPLAY-VIOLATION property=%s sig=%s\n%s\n", prop, sig, msg)
+			}
+			os.Exit(1)
+		}
+	}()
+	return func() { close(done) }
 }
